@@ -49,8 +49,8 @@ static char *long_tokens[8];
 static int n_long;
 
 /* ---- initial configurations ---------------------------------------------------------------------------- */
-static const char *buf_names[] = {"empty", "ascii5", "lines30", "utf8", "long300", "longword", "longutf8word", "longpath"};
-#define NBUFS 8
+static const char *buf_names[] = {"empty", "ascii5", "lines30", "utf8", "long300", "longword", "longutf8word", "longpath", "longindent"};
+#define NBUFS 9
 static char *buf_text[NBUFS];
 static const struct { int rows, cols; } wins[] = {{24, 80}, {2, 2}, {3, 10}, {8, 40}};
 static const char *opt_sets[] = {"", "se noai|se noic|se nohl|se order=2|se td=-2|se lim=5|se hist=5|se hll"};
@@ -94,6 +94,15 @@ static void make_buffers(void)
 		sbuf_str(sb, "/p");
 	sbuf_str(sb, ".c:12:3\nshort word\n");
 	buf_text[7] = sbuf_done(sb);
+	/* indentation longer than the autoindent scratch buffer: blanks, then tabs */
+	sb = sbuf_make();
+	for (i = 0; i < 200; i++)
+		sbuf_chr(sb, ' ');
+	sbuf_str(sb, "x y\n");
+	for (i = 0; i < 140; i++)
+		sbuf_chr(sb, '\t');
+	sbuf_str(sb, "z\nshort word\n");
+	buf_text[8] = sbuf_done(sb);
 }
 
 static void make_long_tokens(int exmode)
@@ -414,6 +423,24 @@ int main(int argc, char **argv)
 		explore_config(m, b, w, o, d, mo);
 		return nv_finish();
 	}
+	/* every single token from every buffer x window x option set (one configuration per shard) */
+	/* both tiers: every single token from every buffer x window x option set (one configuration per shard) */
+	if (nx_replay_n < 0) {
+		int ci = 0;
+		nx_shard_div = 1;
+		nx_shard_mod = 0;
+		for (b = 0; b < NBUFS; b++)
+			for (w = 0; w < 4; w++)
+				for (o = 0; o < 2; o++)
+					if (ci++ % nv_nshards == nv_shard)
+						explore_config(0, b, w, o, 1, 1);
+		for (b = 0; b < NBUFS; b++)
+			for (o = 0; o < 2; o++)
+				if (ci++ % nv_nshards == nv_shard)
+					explore_config(1, b, 0, o, 1, 1);
+		nx_shard_div = nv_nshards;
+		nx_shard_mod = nv_shard;
+	}
 	if (!nv_thorough) {
 		/* quick: full vi alphabet to depth 2 on three configurations, ex alphabet to depth 2 on two, deviations k=1 */
 		explore_config(0, 1, 0, 0, 2, 1);
@@ -421,23 +448,6 @@ int main(int argc, char **argv)
 		explore_config(0, 0, 1, 0, 2, 2);
 		explore_config(1, 1, 0, 0, 2, 1);
 		explore_config(1, 0, 0, 1, 2, 2);
-		/* every single token from every buffer x window x option set (one configuration per shard) */
-		if (nx_replay_n < 0) {
-			int ci = 0;
-			nx_shard_div = 1;
-			nx_shard_mod = 0;
-			for (b = 0; b < NBUFS; b++)
-				for (w = 0; w < 4; w++)
-					for (o = 0; o < 2; o++)
-						if (ci++ % nv_nshards == nv_shard)
-							explore_config(0, b, w, o, 1, 1);
-			for (b = 0; b < NBUFS; b++)
-				for (o = 0; o < 2; o++)
-					if (ci++ % nv_nshards == nv_shard)
-						explore_config(1, b, 0, o, 1, 1);
-			nx_shard_div = nv_nshards;
-			nx_shard_mod = nv_shard;
-		}
 		deviation_streams(0);
 	} else {
 		/* thorough: depth 2 on every buffer x window x option set, depth 3 on the core alphabet, deviations k=2 */
@@ -446,6 +456,8 @@ int main(int argc, char **argv)
 				for (o = 0; o < 2; o++) {
 					if (nv_expired_now())
 						break;
+					if (b >= 5 && w != 0)	/* the long-word / long-indent buffers: one window size */
+						continue;
 					explore_config(0, b, w, o, 2, b == 1 && w == 0 ? 1 : 2);
 				}
 		for (b = 0; b < NBUFS; b++)
